@@ -309,3 +309,58 @@ pub fn self_check() -> Result<(), String> {
     }
     Ok(())
 }
+
+// ---- "twin" symbols: distinct internal symbol ids with identical tuples, hence identical LT rows.
+// A received set that contains both members of t twin pairs has at least t redundant rows: an
+// adversarial erasure pattern that makes rank-deficient-at->=K states common instead of ~0.5 %.
+
+use std::collections::HashMap;
+use std::sync::{Arc, Mutex};
+
+/// pairs of internal symbol ids (both >= K') with equal Tuple[K', X]; computed once per K'
+pub fn twin_pairs(kp: u32) -> Arc<Vec<(u32, u32)>> {
+    static CACHE: OnceLock<Mutex<HashMap<u32, Arc<Vec<(u32, u32)>>>>> = OnceLock::new();
+    let cache = CACHE.get_or_init(|| Mutex::new(HashMap::new()));
+    if let Some(v) = cache.lock().unwrap().get(&kp) {
+        return v.clone();
+    }
+    let pr = params(kp);
+    let scan: u32 = if kp <= 150 { 300_000 } else if kp <= 420 { 1_000_000 } else { 0 };
+    let mut seen: HashMap<(u32, u32, u32, u32, u32, u32), u32> = HashMap::with_capacity(scan as usize);
+    let mut pairs = vec![];
+    for x in kp..kp + scan {
+        let t = tuple(&pr, x);
+        match seen.get(&t) {
+            Some(&first) => {
+                if pairs.len() < 4000 {
+                    pairs.push((first, x));
+                }
+            }
+            None => {
+                seen.insert(t, x);
+            }
+        }
+    }
+    let v = Arc::new(pairs);
+    cache.lock().unwrap().insert(kp, v.clone());
+    v
+}
+
+/// twin pairs as encoding symbol ids of a K-symbol block
+pub fn twin_esis(k: u32, n: usize, pick: &mut dyn FnMut(usize) -> usize) -> Vec<(u32, u32)> {
+    let pr = params(k);
+    let pairs = twin_pairs(pr.kp);
+    if pairs.is_empty() {
+        return vec![];
+    }
+    let shift = pr.kp - k;
+    let mut out = vec![];
+    for _ in 0..n {
+        let (a, b) = pairs[pick(pairs.len())];
+        let (ea, eb) = (a - shift, b - shift);
+        if ea >= k && eb >= k && eb < (1 << 24) && !out.contains(&(ea, eb)) {
+            out.push((ea, eb));
+        }
+    }
+    out
+}
